@@ -23,7 +23,7 @@ ASSUMPTIONS = [
     "lean/Ufw/Model/Endpoints.lean is a hand transcription of src/endpoints/core.c for endpoints without the getbuffer extension (no endpoint of the library provides it); "
     "tied to the code by the correspondence run with scripted drivers owned by the harness",
     "octet-style drivers return 1 for a moved octet (the convention of every driver in the library)",
-    "drivers answering 0 (nothing for the moment) in per-octet plumbing: covered by the correspondence since fix 516baad; the per-octet plumbing THEOREMS keep the hypothesis that drivers never answer 0",
+    "drivers answering 0 (nothing for the moment) are inside the model and the theorems since fix 516baad (sts_cbc asks again / hands on nothing)",
 ]
 TRUSTED = ["correspondence harness harness/h_streams.c + tools/lib/vf.py (return value incl. exact errno, octets delivered to the caller / received by the sink; "
            "spec view: delivered = next N of the stream, sink content a prefix of the stream, auxiliary buffer untouched outside its region; "
